@@ -92,11 +92,16 @@ CLAIMED = {
         "DataSetValue.parse, _parse_p1_datetime, _decode_parsed, parse_p1_readout_content, decode_p1_readout_content, lets only ValueError escape. That the construct-based decoders raise only ConstructError / ValueError on EVERY byte string "
         "needs the type of all parse trees of each grammar; not mechanised: a BOUNDED mutation fuzz of the real AutoDecoder stands in. Hence 'other'.",
    note="Bounded: 1711 (quick) / ~66000 (thorough) payloads x remembered decoders, 2 s per call.", technique=DED + " for the loops, termination measures and P1 exception classes; bounded mutation fuzz for the construct decoders", design="DESIGN.md section 9 C15"),
- "C16": dict(level="other",
-   text="Deductive part (unbounded): the state claims of C16 are clauses of the reader invariants and hold after arbitrary input - no escape pending after a flag / frame start / discard, octets == unstuff(raw) restarts at the flag, "
-        "a frame starts only right after a flag, frames never exceed 2047 octets, P1 hunt mode keeps no collected octets. The composition 'every subsequent clean message except possibly the first is delivered' is a BOUNDED stand-in "
-        "(noise prefixes x clean suffixes x chunkings on the real readers), not counted as proved; hence level 'other'.",
-   note="Bounded stand-in: 400/6000 HDLC and 200/3000 P1 histories.", technique=DED + " for the state claims; bounded run-time lemma check for resynchronisation", design="DESIGN.md section 9 C16"),
+ "C16": dict(level="proof",
+   text="Deductive. HDLC, four configurations: read()'s contract against the ideal receiver (after ANY input the reader's state is the ideal receiver's at the stream position) and its clean-stream contract are connected by a resync lemma over the ideal "
+        "receiver (pure spec-level base / step / final obligations): whatever the receiver holds at the first flag of the clean part, it is hunting or building a frame whose octets equal the ideal frame's, and - with octet stuffing - the first closing flag "
+        "leaves a new empty frame, the clean-stream contract's STATE, so every frame after the first is delivered; without stuffing a frame of the receiver's own cannot survive 2048 octets, so every flag-free frame whose opening flag stands 2048 octets or "
+        "more after the noise is delivered. P1: a resync contract of the real ModeDReader.read(): from any reader state whose read position has not passed the end A1 of the first clean readout, a call ends not past A1 or in the clean-stream contract's "
+        "STATE at or beyond A1 (the position never jumps over A1; A1 is reached hunting with nothing collected); from A1 on one readout per end line, byte-identical. The state claims (no pending escape after a flag, frames <= 2047 octets, nothing collected "
+        "while hunting, collected octets end with a line end) are clauses of the reader invariants.",
+   note="Assumed: the descriptions of the clean part (hypotheses of props/clean_hdlc.py / clean_p1.py; '/' only at the start of identification lines; flag-free frames without stuffing), nothing about the bytes before it; inductions over positions and the "
+        "composition over calls applied by hand. Bounded cross-checks on the real readers: 400/6000 noise + clean-suffix histories, 150/3000 P1 streams with the resync contract evaluated after every call.",
+   technique=DED + "; contracts of read() against ghost functions of the stream position, resync lemma as base/step/final obligations over those contracts", design="DESIGN.md section 9 C16 and 14.10"),
  "C18": dict(level="proof",
    text="Deductive: ghost failure counter on the strategy object - invariant _delay == 2^(n-1) (0 for n == 0), failure/reset/current_delay_sec == min(2^(n-1), max_delay) for every n and every max_delay >= 1 (unbounded, recursive pow2); "
         "_get_back_off_time == max(back-off delay, breaker sleep); loss-breaker update; sequential contract of _try_connect (sleeps exactly the back-off time before the single factory call; failure()/reset() exactly once). "
